@@ -519,6 +519,16 @@ func Sleep(d interface{}) {
 	s.point(op{kind: opSleep, what: "sleep"})
 }
 
+// FS is a scheduling point before an operation on the file system (os.Create, os.Rename, (*os.File).Close
+// ...): the file system is state shared by all threads and its operations are visible operations. The value
+// (the call's first argument or its receiver) is passed through.
+func FS[T any](v T, what string) T {
+	if s := cur.Load(); s != nil {
+		s.point(op{kind: opSync, what: what})
+	}
+	return v
+}
+
 // Cap scales a literal channel capacity.
 func Cap(n int) int {
 	s := cur.Load()
